@@ -35,6 +35,7 @@ def scenarios(tier):
     for positive in ('up', 'down', 'absent'):
         for layout in ('tkyx', 'ktyx', 'tyxk', 'kyx', 'tkn', 'ytkx'):
             out.append({'name': f'ocean_floor[positive={positive},temp{LAYOUTS[layout]}]', 'fn': 'scn_floor', 'kwargs': {'positive': positive, 'layout': layout}})
+    out.append({'name': "ocean_floor[positive='DOWN' (CF: case-insensitive)]", 'fn': 'scn_floor', 'kwargs': {'positive': 'DOWN', 'layout': 'tkyx'}})
     out.append({'name': 'ocean_floor[no non-spatial variables given: records are columns of their own]', 'fn': 'scn_floor', 'kwargs': {'positive': 'up', 'layout': 'tkyx', 'nonspatial': False}})
     out.append({'name': 'ocean_floor[dimension coordinate k(k)]', 'fn': 'scn_floor', 'kwargs': {'positive': 'down', 'layout': 'tkyx', 'dimcoord': True}})
     out.append({'name': 'ocean_floor[two depth coordinates on one dimension]', 'fn': 'scn_floor', 'kwargs': {'positive': 'up', 'layout': 'tkyx', 'second': 'shared'}})
@@ -104,7 +105,7 @@ def _build(c, positive, layout, dimcoord=False, second=None):
 
 
 def _sigma(positive):
-    return 1 if positive in ('down', 'absent') else -1
+    return 1 if positive.lower() in ('down', 'absent') else -1
 
 
 def _deepest(c, dep, sigma, col, sizes, loc, tag='K'):
